@@ -195,7 +195,7 @@ def main(tier):
     if tier == "quick":
         long_lens = sorted({(1 << k) + d for k in range(5, 13) for d in (-1, 0, 1)})
     else:
-        long_lens = sorted(set(range(161, 1101)) | {64 * k + d for k in range(17, 67) for d in (-1, 0, 1)})
+        long_lens = list(range(161, 4226))
     cases += [{"units": 2 * n, "hex_only": True, "lower": True, "crc": "uf"} for n in long_lens]
     results = H.run_cases("harness.C04", "run_case", cases, timeout_ms=60000 if tier == "quick" else 600000)
     # witness validation on the unmodified function
@@ -217,7 +217,7 @@ def main(tier):
              "(constrained to [0-9a-fA-F] for the valid-input cases); a path is one (returns | raises) outcome",
         bounds={"valid_hex_bytes": "0..%d in every upper/lower-case spelling, bit-precise CRC" % maxn,
                 "long byte strings": ("lengths 2^k-1, 2^k, 2^k+1 for k = 5..12 (31..4097 bytes)" if tier == "quick" else
-                                      "every length 161..1100 and every length = -1, 0, 1 mod 64 up to 4225 bytes") +
+                                      "every length 161..4225 bytes") +
                                      ", lower-case spelling, CRC byte step uninterpreted (congruence)",
                 "free_text_units": "1..6", "characters": "ASCII (< 128)",
                 "outside": "byte strings longer than 4225 bytes; upper-case spellings beyond %d bytes; non-ASCII text" % maxn},
